@@ -28,7 +28,7 @@ ASSUMPTIONS = [
     "array_to_blocks requires blk_shape <= array extent per axis (otherwise the block count is not positive)",
 ]
 
-DT = ("float64", "complex128", "float32", "complex64", "int64")
+DT = ("float64", "complex128", "float32", "complex64", "int64", "int32", "int16", "uint16")
 
 
 def _arr(spec):
